@@ -236,7 +236,8 @@ def toy_cases(rng, tier):
     for c in SMALL + BIG:
         P = c.params()
         n, p = c.n, c.p
-        for _ in range(reps if c.p < 50 else 4 * reps):
+        heavy = p.bit_length() > 24 and not thorough       # the extracted affine model costs ~20-60 ms per operation there
+        for _ in range(reps if c.p < 50 else (1 if heavy else 3 * reps)):
             d = rng.randrange(1, n)
             z = rng.choice([rng.randrange(1, n), rng.getrandbits(256) or 1, rng.randrange(1, 4 * n), n])
             yield case_sign(P, d, z, min(n + 2, 60))
@@ -268,6 +269,8 @@ def toy_cases(rng, tier):
         # --- malformed stream
         Q = _some_point(c, rng)
         vals = _interesting_scalars(c)
+        if heavy:
+            vals = rng.sample(vals, 3)
         for r in vals:
             for s in vals:
                 z = rng.choice([1, n, 2 ** 256 - 1, rng.randrange(1, n)])
@@ -333,9 +336,9 @@ def inv_cases(rng, tier):
     for m in mods:
         for a in (0, 1, 2, m - 1, m, m + 1, -1, 2 * m + 1, m // 2, m // 3):
             yield case_inv(a, m)
-        for _ in range(200 if thorough else 12):
+        for _ in range(200 if thorough else 4):
             yield case_inv(rng.randrange(-m, 2 * m), m)
-    for _ in range(4000 if thorough else 300):
+    for _ in range(4000 if thorough else 150):
         m = rng.getrandbits(rng.choice([8, 16, 33, 64, 130, 256, 300])) + 1
         yield case_inv(rng.randrange(-m, 2 * m), m)
 
